@@ -98,7 +98,11 @@ func retCommittedDataC(node *raftconn.RaftNode, dw *raftlog.DataWrapper, committ
 
 func dealCommitData(node *raftconn.RaftNode, client metaclient.MetaClient, storage StorageService, data []byte, database string, ptId uint32) {
 	dataWrapper, err := raftlog.Unmarshal(data)
-	defer retCommittedDataC(node, dataWrapper, err)
+	// report the error of applying the entry, not only of decoding it: the writer
+	// acknowledges when this returns nil
+	defer func() {
+		retCommittedDataC(node, dataWrapper, err)
+	}()
 	if err != nil {
 		logger.GetLogger().Error("Unmarshal commit data failed", zap.Error(err))
 		return
